@@ -107,7 +107,7 @@ def cost_envelope(p, reduced, metric):
 @st.composite
 def def_cases(draw, tier):
     fams = None if draw(st.booleans()) else ['mono_dec', 'convex', 'concave', 'noise', 'trace', 'pwl_rational']
-    c = draw(S.curves(2, 40 if tier == 'quick' else 160, families=fams))
+    c = draw(S.curves(2, 40 if tier == 'quick' else 160, families=fams, big_n=120 if tier == 'quick' else 400))
     pts = c['pts']
     if fams is not None and draw(st.booleans()):
         # second generator: keep y >= 1e-3 * scale so that envelopes are tight
